@@ -27,6 +27,11 @@ class TaskScenario(ScenarioData):
         self._selectedResources: Optional[list[Any]] = None
         self._lastBookedResource: Optional[Any] = None
         self._lastBookedSlot: Optional[int] = None
+        # resource -> seconds of the current slot already taken when this task booked it
+        self._slotUsedBefore: dict[Any, float] = {}
+        # Backward scheduling: slot of the first booking and what was already taken at its end
+        self._alapEndSlot: Optional[int] = None
+        self._alapEndOffset: float = 0.0
 
         # Ensure required attributes exist
         required_attrs = [
@@ -90,6 +95,8 @@ class TaskScenario(ScenarioData):
         self.doneEffort = 0.0
         self.scheduled = False
         self._selectedResources = None  # Reset alternative resource selection
+        self._alapEndSlot = None
+        self._alapEndOffset = 0.0
 
         # Track exact start time within a slot (for mid-slot dependency starts)
         # This is the number of seconds into the slot where we should start booking
@@ -657,6 +664,14 @@ class TaskScenario(ScenarioData):
             # Use first_booked_slot if we actually booked something, else fall back to start_slot_idx
             end_slot = first_booked_slot if first_booked_slot is not None else start_slot_idx
             actual_end = self.project.idxToDate(end_slot + 1)
+            if self._alapEndSlot is not None:
+                # Work was booked: it ends in the first slot booked, before whatever later
+                # tasks hold at the end of that slot
+                from datetime import timedelta
+
+                actual_end = self.project.idxToDate(self._alapEndSlot + 1) - timedelta(
+                    seconds=round(self._alapEndOffset)
+                )
             # For effort-based tasks, always use the calculated end (when work actually completes)
             # even if an explicit end constraint was specified (that's just the deadline, not the actual end)
             effort = self.property.get("effort", self.scenarioIdx) or 0
@@ -818,12 +833,18 @@ class TaskScenario(ScenarioData):
         else:
             seconds_into_slot = slot_duration_seconds
 
-        # Clamp to slot duration (shouldn't exceed, but safety check)
-        seconds_into_slot = min(seconds_into_slot, slot_duration_seconds)
+        # The task entered the slot behind whatever was already booked there (a predecessor
+        # that ended mid-slot, or other tasks sharing the slot)
+        used_before = 0.0
+        if resource is not None and self._lastBookedSlot == self.currentSlotIdx:
+            used_before = self._slotUsedBefore.get(resource, 0.0)
+
+        # Clamp to what was left of the slot (shouldn't exceed, but safety check)
+        seconds_into_slot = min(seconds_into_slot, slot_duration_seconds - used_before)
 
         # Calculate the precise end time, rounded to nearest second
         # (Gold standard uses second-level precision)
-        seconds_rounded = round(seconds_into_slot)
+        seconds_rounded = round(used_before + seconds_into_slot)
 
         if forward:
             # For forward scheduling, end time is offset from slot start
@@ -833,20 +854,22 @@ class TaskScenario(ScenarioData):
                 precise_end = self.project["start"] + timedelta(seconds=seconds_rounded)
         else:
             # For backward scheduling, we're calculating the START time
-            # The start is at the END of the slot minus unused time
-            # If we used the whole slot, start is at slot_start
-            # If we used part of it, start is later in the slot
+            # The slot fills up from its end: the start is at the END of the slot minus
+            # what later tasks hold there and minus what this task needs
             if slot_start is not None:
                 slot_end = slot_start + timedelta(seconds=slot_duration_seconds)
                 precise_end = slot_end - timedelta(seconds=seconds_rounded)
             else:
                 precise_end = self.project["start"]
 
-        # Release unused portion of the slot back to the resource
-        seconds_unused = slot_duration_seconds - seconds_into_slot
+        # Release unused portion of the slot back to every resource booked for this slot
+        seconds_unused = slot_duration_seconds - used_before - seconds_into_slot
         if seconds_unused > 0 and resource:
-            res_scenario = resource.data[self.scenarioIdx] if resource.data else None
-            if res_scenario:
+            booked = [r for r in self._slotUsedBefore if self._lastBookedSlot == self.currentSlotIdx] or [resource]
+            for res in booked:
+                res_scenario = res.data[self.scenarioIdx] if res.data else None
+                if not res_scenario:
+                    continue
                 # Update the per-task usage record to reflect actual usage
                 if self.currentSlotIdx in res_scenario.slotTaskUsage:
                     # Find and update this task's entry
@@ -855,12 +878,10 @@ class TaskScenario(ScenarioData):
                             res_scenario.slotTaskUsage[self.currentSlotIdx][i] = (task, seconds_into_slot)
                             break
 
-                # Update total slotSecondsUsed to release unused time
-                # Old value was full slot duration, new value is actual usage
-                old_total = res_scenario.slotSecondsUsed.get(self.currentSlotIdx, slot_duration_seconds)
-                # Subtract what was previously booked (full slot) and add actual usage
+                # Update total slotSecondsUsed to release unused time: what was there before
+                # this task plus what this task actually used
                 res_scenario.slotSecondsUsed[self.currentSlotIdx] = (
-                    old_total - slot_duration_seconds + seconds_into_slot
+                    self._slotUsedBefore.get(res, 0.0) + seconds_into_slot
                 )
 
         return precise_end, seconds_into_slot
@@ -1304,6 +1325,7 @@ class TaskScenario(ScenarioData):
         # Now book all resources (or single resource for non-team tasks)
         booked_any = False
         total_effort_this_slot = 0.0
+        self._slotUsedBefore = {}
         for resource in resources_to_book:
             effort_gained = self.bookResource(resource)
             if effort_gained > 0:
@@ -1329,9 +1351,17 @@ class TaskScenario(ScenarioData):
 
                     slot_idx = self.currentSlotIdx if self.currentSlotIdx is not None else 0
                     start_date = self.project.idxToDate(slot_idx)
-                    if start_date is not None and hasattr(self, "slotStartOffset") and self.slotStartOffset > 0:
-                        start_date = start_date + timedelta(seconds=self.slotStartOffset)
+                    # Work starts where the slot was still free: after the dependency offset and
+                    # after whatever other tasks already hold at the front of the slot
+                    start_offset = max(self._slotUsedBefore.values(), default=0.0)
+                    if start_date is not None and start_offset > 0:
+                        start_date = start_date + timedelta(seconds=round(start_offset))
                     self.property[("start", self.scenarioIdx)] = start_date
+                else:
+                    # Backward: the first booking is where the task ends. The slot fills up
+                    # from its end, so later tasks already in it push this task's end back
+                    self._alapEndSlot = self.currentSlotIdx
+                    self._alapEndOffset = max(self._slotUsedBefore.values(), default=0.0)
 
             # Accumulate effort (counted once per slot, not per resource)
             self.doneEffort += total_effort_this_slot
@@ -1414,8 +1444,14 @@ class TaskScenario(ScenarioData):
         if not self.limitsOk(slot_idx, resource):
             return 0.0
 
+        # Remember how much of the slot was taken before this task entered it: the task
+        # occupies the slot from that offset on, not from the slot boundary
+        used_before = res_scenario.slotSecondsUsed.get(slot_idx, 0.0)
+
         # Book the resource - returns effort gained (accounts for partial slots)
         result_float: float = res_scenario.book(slot_idx, self.property)
+        if result_float > 0:
+            self._slotUsedBefore[resource] = used_before
         return result_float
 
     def propagateDate(self, date: datetime, atEnd: bool) -> None:
